@@ -36,6 +36,16 @@ type Program struct {
 	byName         map[string]*ssa.Function
 	ifaceContracts map[string]*Harness
 	waitInv        map[*ssa.Function]*ssa.Function // monitor invariant re-assumed after (*sync.Cond).Wait
+	pureMethods    map[string]bool
+	callAsserts    map[*ssa.Function][]*callAssert
+}
+
+// callAssert: a ghost predicate that must hold at a particular call inside a function.
+type callAssert struct {
+	callee  string // name of the called function or interface method
+	ordinal int    // 0-based, among the calls of that name in the function
+	fn      *ssa.Function
+	label   string
 }
 
 type Harness struct {
@@ -55,6 +65,9 @@ type Harness struct {
 	Writes   []string
 	// NonBlocking: (*sync.Cond).Wait ends the path (the contract covers executions that do not block).
 	NonBlocking bool
+	// WritesNothing: trusted frame - where this contract is used, the target is assumed to write no
+	// memory visible to the caller (listed as an assumption).
+	WritesNothing bool
 	// InlineTargets: functions whose body is executed in this harness even though they have a contract.
 	InlineTargets map[*ssa.Function]bool
 }
@@ -113,6 +126,8 @@ func LoadProgram(repo string, pkgPaths []string, overlay map[string][]byte) (*Pr
 		byName:         map[string]*ssa.Function{},
 		ifaceContracts: map[string]*Harness{},
 		waitInv:        map[*ssa.Function]*ssa.Function{},
+		pureMethods:    map[string]bool{},
+		callAsserts:    map[*ssa.Function][]*callAssert{},
 	}
 	for _, p := range pkgs {
 		for _, e := range p.Errors {
@@ -252,6 +267,12 @@ func (P *Program) scanDirectives(pkg *packages.Package, f *ast.File) error {
 				continue
 			}
 			switch fields[0] {
+			case "pure-method":
+				// //verif:pure-method <interface type string>.<Method> : calls of this interface method have no
+				// effect and return a function of receiver and arguments (a trusted, listed assumption)
+				for _, tgt := range fields[1:] {
+					P.pureMethods[tgt] = true
+				}
 			case "inline", "opaque", "pure":
 				for _, tgt := range fields[1:] {
 					fn, err := P.FindFunc(pkg, tgt)
@@ -314,6 +335,19 @@ func (P *Program) scanDirectives(pkg *packages.Package, f *ast.File) error {
 					return fmt.Errorf("%s: %v", P.fset.Position(c.Pos()), err)
 				}
 				hh.Target = tgt
+			case "iface-contract":
+				// //verif:iface-contract <interface type string>.<Method> : a trusted contract of an interface
+				// method (assumed for every implementation; listed as an assumption). The harness takes the
+				// receiver and the arguments and calls the method once. The method is treated as having no
+				// effect on verified state and returning a function of receiver and arguments.
+				if len(fields) < 2 {
+					return fmt.Errorf("%s: iface-contract needs <type>.<method>", P.fset.Position(c.Pos()))
+				}
+				hh := mk()
+				hh.Kind = "iface-contract"
+				hh.Trusted = true
+				hh.TargetS = fields[1]
+				P.ifaceContracts[fields[1]] = hh
 			case "lemma":
 				hh := mk()
 				hh.Kind = "lemma"
@@ -338,6 +372,24 @@ func (P *Program) scanDirectives(pkg *packages.Package, f *ast.File) error {
 					}
 					mk().InlineTargets[tgt] = true
 				}
+			case "call-assert":
+				// //verif:call-assert <caller> <callee-name> <ordinal> : this ghost predicate must hold at that
+				// call; its parameters are bound by name to the caller's variables, arg0..argN to the call's
+				// arguments and recv to the receiver of an interface call
+				if len(fields) < 4 {
+					return fmt.Errorf("%s: call-assert needs caller, callee name and ordinal", P.fset.Position(c.Pos()))
+				}
+				tgt, err := P.FindFunc(pkg, fields[1])
+				if err != nil {
+					return fmt.Errorf("%s: %v", P.fset.Position(c.Pos()), err)
+				}
+				n, err := strconv.Atoi(fields[3])
+				if err != nil {
+					return fmt.Errorf("%s: bad ordinal", P.fset.Position(c.Pos()))
+				}
+				P.callAsserts[tgt] = append(P.callAsserts[tgt], &callAssert{callee: fields[2], ordinal: n, fn: fn, label: fd.Name.Name})
+			case "writes-nothing":
+				mk().WritesNothing = true
 			case "monitor-invariant":
 				// //verif:monitor-invariant <target>: this ghost predicate (parameters bound by name to the
 				// target's parameters) is asserted before and assumed after every (*sync.Cond).Wait in target
